@@ -8,8 +8,8 @@ export GOFLAGS=-mod=mod GOPROXY=off GOSUMDB=off GOTOOLCHAIN=local
 mkdir -p /tmp/seedchk; rm -rf $WT; git -C /repo worktree prune
 git -C /repo worktree add -q --detach $WT HEAD || exit 2
 demo() {
-  if [ -f $SRC/$X.demo/run.sh ]; then (cd $SRC/$X.demo && timeout 900 sh ./run.sh $WT) ;
-  elif [ -f $SRC/$X.demo/demo.sh ]; then (cd $SRC/$X.demo && timeout 900 sh ./demo.sh $WT) ;
+  if [ -f $SRC/$X.demo/run.sh ]; then (cd $SRC/$X.demo && timeout 900 bash ./run.sh $WT) ;
+  elif [ -f $SRC/$X.demo/demo.sh ]; then (cd $SRC/$X.demo && timeout 900 bash ./demo.sh $WT) ;
   else D=$(mktemp -d); cp -r $SRC/$X.demo/. $D/; (cd $D && go mod edit -replace github.com/magefile/mage=$WT && cp $WT/go.sum . 2>/dev/null; timeout 900 go test -vet=off -count=1 ./...); rc=$?; rm -rf $D; return $rc; fi
 }
 demo > /tmp/seedchk/$ID$X.clean.log 2>&1; CLEAN=$?
